@@ -17,7 +17,7 @@ RULE = (
     "six cells (2x3 or 3x2 grid, index column included) each independently one of {NULL spelled as in the header, "
     "NULL spelled differently, NULL +/- a small printable difference, ordinary}: all 4^6 placements; NULL value in "
     "{-999.25, 0, 1e30, -9999, 999, -0.5, -99999.25, 2147483647} with 3 header spellings; engine {numpy, normal}; null_policy {strict, none}; "
-    "WRAP {NO, YES}; optional text column; every read result is also written with defaults and re-read; quick = full "
+    "WRAP {NO, YES}; optional text column; every read result is also written with defaults and re-read, then edited in place (every non-index cell toggled between NaN and a value), written and re-read again; quick = full "
     "product placement x 3 NULL values x policy x engine plus each secondary axis one at a time against all "
     "placements, thorough = full product of all axes; non-trivial = at least one cell is NULL-equal or near-NULL"
 )
@@ -173,12 +173,37 @@ def check_point(pt):
     except Exception as e:
         return [V("roundtrip-raises", "write+read succeed", "%s: %s" % (type(e).__name__, str(e)[:150]))], nontriv, "ok", {}, 2
     try:
-        m1 = np.array([[_isnan(las.curves[j].data[i]) for j in range(c)] for i in range(r)])
-        m2 = np.array([[_isnan(las2.curves[j].data[i]) for j in range(c)] for i in range(r)])
+        c1, c2 = list(las.curves), list(las2.curves)
+        m1 = np.array([[_isnan(c1[j].data[i]) for j in range(c)] for i in range(r)])
+        m2 = np.array([[_isnan(c2[j].data[i]) for j in range(c)] for i in range(r)])
         if len(las2.curves) < c or m1.tolist() != m2.tolist():
             vio.append(V("roundtrip-nan-mask", m1.tolist(), m2.tolist()))
     except Exception as e:
         vio.append(V("roundtrip-nan-mask", "comparable curves", repr(e)))
+    if vio or text:
+        return vio, nontriv, "ok", {}, evals
+    # second write after in-place edits that add and remove NaNs (the object has been written once already)
+    try:
+        cl = list(las.curves)
+        toggled = []
+        for j in range(1, c):
+            col = cl[j].data
+            if col.dtype.kind != "f":
+                continue
+            for i in range(r):
+                col[i] = 77.5 if np.isnan(col[i]) else np.nan
+                toggled.append((i, j))
+        s = io.StringIO()
+        las.write(s)
+        las3 = lasio.read(s.getvalue(), null_policy=pol)
+        evals += 2
+        c3 = list(las3.curves)
+        m1 = [[_isnan(cl[j].data[i]) for j in range(c)] for i in range(r)]
+        m3 = [[_isnan(c3[j].data[i]) for j in range(c)] for i in range(r)]
+        if m1 != m3 and pol == "strict":
+            vio.append(V("rewrite-nan-mask", {"memory after in-place edits": m1}, m3))
+    except Exception as e:
+        vio.append(V("rewrite-raises", "second write+read succeed", "%s: %s" % (type(e).__name__, str(e)[:150])))
     return vio, nontriv, "ok", {}, evals
 
 
